@@ -26,7 +26,7 @@ def _member_fault(data, kind, rng):
         pass
     if kind == "empty":
         return b""
-    if len(data) < 8 and kind in ("cut-at-chunk", "cut-off-chunk", "marker", "len-long", "len-short", "bad-snappy"):
+    if len(data) < 8 and kind in ("cut-at-chunk", "cut-off-chunk", "trailing", "marker", "len-long", "len-short", "bad-snappy"):
         return data          # nothing left to damage (another fault already emptied the member)
     if kind == "short":
         return bytes([0, 1, 2][: rng.randint(1, 3)])
@@ -36,6 +36,9 @@ def _member_fault(data, kind, rng):
         return data[: max(4, len(data) // 2)][:4] + data[4: 4 + 0]     # header only: declares a payload that is not there
     if kind == "cut-off-chunk":
         return data[: max(5, len(data) - max(1, len(data) // 3))]
+    if kind == "trailing":
+        # 1..3 stray bytes after the last complete chunk (too short to be a chunk header; the first one looks like a chunk marker)
+        return data + bytes([0, 7, 9][: rng.randint(1, 3)])
     if kind == "marker":
         return b"\x01" + data[1:]
     if kind == "len-long":
